@@ -46,7 +46,7 @@ class Analog(object):
         if self.channel_specific_word != other.channel_specific_word:
             return False
 
-        if len(self.data) != len(other.data):
+        if self.data != other.data:
             return False
 
         return True
